@@ -8,6 +8,40 @@ HERE = os.path.dirname(os.path.dirname(os.path.abspath(__file__)))
 ALL = ["C%02d" % i for i in range(1, 21)]
 
 CHECKS = {
+ "C01": dict(
+  category="exploration",
+  text="Reference-model monitor: for generated modules (semantic generator: byte orders, enums, bits and anonymous bits, nested "
+       "and parameterised structs, fixed/dynamic/multi-dimensional arrays, conditional fields, dynamic offsets, $next, virtual "
+       "fields, aliases, [requires]) the real compiler emits the header, a driver emitted from the spec is built with ASan+UBSan "
+       "and prints Ok/IsComplete/SizeIsKnown/size/has_x/x().Ok()/values/counts/elements for thousands of (parameters, exact-size "
+       "buffer) cases biased to Ok structures, truncations, oversize and garbage; every line is compared with an independent "
+       "three-valued reference interpreter (UNSPEC where the documents are silent). Plus a model-free prefix-monotonicity "
+       "checker over every prefix length of every 4th buffer.",
+  note="Trusted: vlib/refsem.py (my reading of the language reference), the spec renderer, clang. Size-knowledge that depends "
+       "on unreadable conditions and counts of clipped arrays are UNSPEC.",
+  technique="runtime differential monitoring of generated C++ views against an executable reference semantics + trace monotonicity checker",
+  design_ref="5/C01"),
+ "C03": dict(
+  category="exploration",
+  text="Conservation monitor on recorded (before, leaf, value, CouldWriteValue, TryToWrite, after, read-back) tuples from the "
+       "real generated code under ASan+UBSan: accept/reject boundary against the model's exact range and [requires], "
+       "Read()==v after success, (after XOR before) confined to the field's absolute bit mask (through nesting, anonymous bits "
+       "and byte order), buffer untouched after failure; leaves include nested fields, array elements, aliases and add/subtract "
+       "virtual fields; values at and just outside each range and at the 32/64-bit edges.",
+  note="Bcd/enum/virtual argument narrowing happens in the driver's C++ cast and the narrowed value is judged; model abstains on "
+       "null (absent) targets without static width.",
+  technique="runtime conservation monitor (bit-mask oracle from the reference model) on sanitizer builds",
+  design_ref="5/C03"),
+ "C04": dict(
+  category="exploration",
+  text="Sanitizer oracle: every driver execution of the observation (incl. every prefix length), write, copy/equals and text "
+       "families runs in a clang ASan+UBSan build (-fno-sanitize-recover, default and EMBOSS_NO_OPTIMIZATIONS) on exact-size heap "
+       "buffers with EMBOSS_CHECK/DCHECK overridden to an attributable abort; a liveness canary must see a 1-byte over-read, a "
+       "signed overflow and a tripped check or the run is inconclusive. Reports are keyed by (kind, message, first generated-code "
+       "frame).",
+  note="Red-zone ASan misses far/intra-buffer overreach (C03's mask monitor covers intra-buffer); UBSan 'undefined' group only.",
+  technique="compiler sanitizers (ASan+UBSan) + runtime's own checks over hostile generated workloads, with liveness canary",
+  design_ref="5/C04"),
  "C16": dict(
   category="exploration",
   text="Wrapper monitors on the real entry points (glue.parse_emboss_file, header_generator.generate_header, "
